@@ -129,8 +129,12 @@ func crashRun(args []string) error {
 	}
 	defer os.RemoveAll(base)
 	env := append(os.Environ(), "GOMAXPROCS=1")
+	noclobber := false
 	store := func(dir, id, variant string, strace ...string) error {
 		argv := append(append([]string{}, strace...), self, "crash-child", "--dir", dir, "--id", id, "--variant", variant, "--op", "store")
+		if noclobber && len(strace) > 0 { // only the store under observation; the preparing stores are plain
+			argv = append(argv, "--noclobber")
+		}
 		cmd := exec.Command(argv[0], argv[1:]...)
 		cmd.Env = env
 		return cmd.Run()
@@ -138,8 +142,10 @@ func crashRun(args []string) error {
 	const id, other = "urn:doc:crash-subject", "urn:doc:bystander"
 	oldDoc, newDoc, otherDoc := showDoc(self, id, "old"), showDoc(self, id, "new"), showDoc(self, other, "other")
 	sid := 0
-	for _, scenario := range []string{"first-absent-dir", "first", "overwrite"} {
+	for _, scenarioFull := range []string{"first-absent-dir", "first", "overwrite", "first-noclobber", "first-absent-dir-noclobber"} {
 		sid++
+		scenario := strings.TrimSuffix(scenarioFull, "-noclobber")
+		noclobber = scenarioFull != scenario
 		prep := func(dir string) {
 			switch scenario {
 			case "first":
@@ -220,7 +226,7 @@ func crashRun(args []string) error {
 				return "tmp"
 			}
 		}
-		w.write(map[string]any{"op": "CrashReset", "sid": sid, "scenario": scenario, "oldlen": oldLen, "newlen": newLen,
+		w.write(map[string]any{"op": "CrashReset", "sid": sid, "scenario": scenarioFull, "oldlen": oldLen, "newlen": newLen,
 			"old": oldDoc, "new": newDoc, "other": otherDoc, "overwrite": scenario == "overwrite"})
 		// the abstract system call sequence of the store, for the model
 		for _, c := range calls[begin : end-1] {
@@ -276,7 +282,7 @@ func crashRun(args []string) error {
 				listing = append(listing, p)
 			}
 			sort.Strings(listing)
-			ev := map[string]any{"op": "Crash", "sid": sid, "scenario": scenario, "point": n, "torn": torn, "call": calls[n-1].name,
+			ev := map[string]any{"op": "Crash", "sid": sid, "scenario": scenarioFull, "point": n, "torn": torn, "call": calls[n-1].name,
 				"nfiles": len(listing), "overwrite": scenario == "overwrite", "hasother": scenario != "first-absent-dir"}
 			ev["id_res"], ev["id_doc"] = retrieveChild(self, dir, id)
 			ev["other_res"], ev["other_doc"] = retrieveChild(self, dir, other)
